@@ -110,85 +110,88 @@ def fix_time(*modules):
 # IPv4 in inet_aton notation (1-4 dot separated numbers, decimal / 0octal / 0xhex), IPv6 per RFC 4291
 # (1-4 hex digit groups, one "::", optional trailing dotted quad).  Zone ids ("%eth0") are outside.
 
-def _num(part: str):
-    """value of one inet_aton number or None"""
-    n = len(part)
-    if n == 0 or n > 12:
+def _num(s: str, lo: int, hi: int):
+    """value of the inet_aton number s[lo:hi] or None (index arithmetic only: no substrings are created,
+    CrossHair's slice/split/count models produced non-replaying artefacts here)"""
+    n = hi - lo
+    if n <= 0 or n > 12:
         return None
-    if part[0] == "0" and n > 1:
-        if part[1] in "xX":
+    if s[lo] == "0" and n > 1:
+        if s[lo + 1] == "x" or s[lo + 1] == "X":
             if n == 2:
                 return None
             v = 0
-            for c in part[2:]:
-                if c in "0123456789":
-                    d = ord(c) - 48
-                elif c in "abcdef":
-                    d = ord(c) - 87
-                elif c in "ABCDEF":
-                    d = ord(c) - 55
+            for i in range(lo + 2, hi):
+                o = ord(s[i])
+                if 48 <= o <= 57:
+                    d = o - 48
+                elif 97 <= o <= 102:
+                    d = o - 87
+                elif 65 <= o <= 70:
+                    d = o - 55
                 else:
                     return None
                 v = v * 16 + d
             return v
         v = 0
-        for c in part[1:]:
-            if c not in "01234567":
+        for i in range(lo + 1, hi):
+            o = ord(s[i])
+            if not 48 <= o <= 55:
                 return None
-            v = v * 8 + (ord(c) - 48)
+            v = v * 8 + (o - 48)
         return v
     v = 0
-    for c in part:
-        if c not in "0123456789":
+    for i in range(lo, hi):
+        o = ord(s[i])
+        if not 48 <= o <= 57:
             return None
-        v = v * 10 + (ord(c) - 48)
+        v = v * 10 + (o - 48)
     return v
 
 
-def _msplit(s: str, ch: str):
-    """s.split(ch) for a single character, written with plain indexing (CrossHair's split/count models
-    produced non-replaying artefacts here)"""
-    parts = []
-    start = 0
-    for i in range(len(s)):
+def _cuts(s: str, lo: int, hi: int, ch: str):
+    """[(start, end)] of the pieces of s[lo:hi] separated by the character ch"""
+    out = []
+    start = lo
+    for i in range(lo, hi):
         if s[i] == ch:
-            parts.append(s[start:i])
+            out.append((start, i))
             start = i + 1
-    parts.append(s[start:])
-    return parts
+    out.append((start, hi))
+    return out
 
 
 def _is_v4_aton(s: str) -> bool:
-    parts = _msplit(s, ".")
+    parts = _cuts(s, 0, len(s), ".")
     k = len(parts)
     if k > 4:
         return False
-    vals = []
-    for p in parts:
-        v = _num(p)
+    last = None
+    for j in range(k):
+        v = _num(s, parts[j][0], parts[j][1])
         if v is None:
             return False
-        vals.append(v)
-    for v in vals[:-1]:
-        if v > 255:
+        if j < k - 1 and v > 255:
             return False
+        last = v
     lim = 256 if k == 4 else 65536 if k == 3 else 16777216 if k == 2 else 4294967296
-    return vals[-1] < lim
+    return last < lim
 
 
-def _is_v4_strict(s: str) -> bool:
-    parts = _msplit(s, ".")
+def _is_v4_strict(s: str, lo: int, hi: int) -> bool:
+    parts = _cuts(s, lo, hi, ".")
     if len(parts) != 4:
         return False
-    for p in parts:
-        if not (1 <= len(p) <= 3):
+    for (a, b) in parts:
+        if not (1 <= b - a <= 3):
             return False
         v = 0
-        for c in p:
-            if c not in "0123456789":
+        for i in range(a, b):
+            o = ord(s[i])
+            if not 48 <= o <= 57:
                 return False
-            v = v * 10 + (ord(c) - 48)
-        if len(p) > 1 and p[0] == "0":
+            v = v * 10 + (o - 48)
+        if b - a > 1 and s[a] == "0":
             return False
         if v > 255:
             return False
@@ -196,44 +199,43 @@ def _is_v4_strict(s: str) -> bool:
 
 
 def _is_v6(s: str) -> bool:
-    n = len(s)
-    if n < 2:
+    lo, hi = 0, len(s)
+    if hi < 2:
         return False
-    if s == "::":
+    if hi == 2 and s[0] == ":" and s[1] == ":":
         return True
     if s[0] == ":":
         if s[1] != ":":
             return False
-        s = s[1:]
-    n = len(s)
-    if s[n - 1] == ":":
-        if n < 2 or s[n - 2] != ":":
+        lo = 1
+    if s[hi - 1] == ":":
+        if hi - lo < 2 or s[hi - 2] != ":":
             return False
-        s = s[:n - 1]
-    parts = _msplit(s, ":")
+        hi = hi - 1
+    parts = _cuts(s, lo, hi, ":")
     if len(parts) < 2:
         return False
     gaps = 0
     groups = 0
-    last = len(parts) - 1
-    for i in range(len(parts)):
-        p = parts[i]
-        if p == "":
+    for j in range(len(parts)):
+        a, b = parts[j]
+        if a == b:
             gaps += 1
             continue
         dotted = False
-        for c in p:
-            if c == ".":
+        for i in range(a, b):
+            if s[i] == ".":
                 dotted = True
         if dotted:
-            if i != last or not _is_v4_strict(p):
+            if j != len(parts) - 1 or not _is_v4_strict(s, a, b):
                 return False
             groups += 2
             continue
-        if len(p) > 4:
+        if b - a > 4:
             return False
-        for c in p:
-            if c not in "0123456789abcdefABCDEF":
+        for i in range(a, b):
+            o = ord(s[i])
+            if not (48 <= o <= 57 or 97 <= o <= 102 or 65 <= o <= 70):
                 return False
         groups += 1
     if gaps > 1:
@@ -246,7 +248,7 @@ def _is_v6(s: str) -> bool:
 def ref_is_numeric_ip(s: str) -> bool:
     if not s:
         return False
-    for c in s:
-        if not (" " < c <= "~"):
+    for i in range(len(s)):
+        if not 33 <= ord(s[i]) <= 126:
             return False
     return _is_v4_aton(s) or _is_v6(s)
